@@ -186,6 +186,9 @@ def compare(case, impl, model):
         G, lam = pmat(toks[1]), pvec(toks[2])
         rows = [] if toks[3] == "-" else toks[3].split(";")
         ds += _cmp_mat("matrix handed to the solver (G − σ²I)", impl["solver_in"], G)
+        sig = F(impl["noise"])
+        G0 = [[x + (sig if i == k else 0) for k, x in enumerate(r)] for i, r in enumerate(G)]
+        ds += _cmp_mat("DenseFunctionalData.inner_product(noise_variance=0)", impl["gram0"], G0)
         i = close_all(impl["vals"], lam, None, 1e-12)
         if i is not None:
             ds.append(f"eigenvalues (l/n) differ at {i}: {impl['vals'][:6]} vs {[float(x) for x in lam][:6]}")
